@@ -116,6 +116,51 @@ def seq_chanclose(rep, rng, lines, expect):
         expect.append(res)
 
 
+def seq_close_during_closeok(rep, rng):
+    """the broker closes a channel; while the reader is writing its Channel.CloseOk another thread calls
+    Channel.close() (emulated at that very point, from the write hook): it must back off - the channel is
+    already being closed - and send nothing"""
+    import amqpstorm
+    from amqpstorm.channel import Channel
+    conn = amqpstorm.Connection('localhost', 'guest', 'guest', lazy=True)
+    conn.set_state(3)
+    ch = Channel(1, conn, 1)
+    ch.set_state(3)
+    conn._channels[1] = ch
+    ntags = rng.randint(0, 2)
+    for i in range(ntags):
+        ch.add_consumer_tag('t%d' % i)
+    written = []
+    inner = {'done': False, 'raised': None, 'state_seen': None}
+
+    def write_frame(cid, fr):
+        written.append(fr.name)
+        if fr.name == 'Channel.CloseOk' and not inner['done']:
+            inner['done'] = True
+            inner['state_seen'] = ch.current_state
+            try:
+                ch.close()
+            except amqpstorm.AMQPError as why:
+                inner['raised'] = type(why).__name__
+        elif fr.name == 'Basic.Cancel':
+            ch.on_frame(spec.Basic.CancelOk(consumer_tag=fr.consumer_tag))
+        elif fr.name == 'Channel.Close':
+            ch.rpc.on_frame(spec.Channel.CloseOk())
+    conn.write_frame = write_frame
+    code = rng.choice([404, 403, 406])
+    ch.on_frame(spec.Channel.Close(reply_code=code, reply_text='gone'))
+    replay = {'kind': 'seq-close-during-closeok', 'tags': ntags, 'code': code}
+    if 'Channel.Close' in written:
+        rep.violation('C11/close-sent-while-answering-broker-close', 'an application close() issued while the reader was writing CloseOk '
+                      '(channel state then: %r) sent its own Channel.Close: wire %r' % (inner['state_seen'], written), replay)
+    if written.count('Channel.CloseOk') != 1:
+        rep.violation('C11/closeok-count', 'broker close answered with %d CloseOk (%r)' % (written.count('Channel.CloseOk'), written), replay)
+    if ch.current_state != 0 or ch.consumer_tags:
+        rep.violation('C11/broker-close-leftovers', 'after the broker close: state=%d tags=%d' % (ch.current_state, len(ch.consumer_tags)), replay)
+    rep.case(('seq-close-during-closeok', ntags, code), True, sample=replay)
+    rep.count('seqb_end', 'close-during-closeok')
+
+
 def seq_stop(rep, rng, lines, expect):
     """stop_consuming alone: which consumers get a Basic.Cancel"""
     import amqpstorm
@@ -275,6 +320,8 @@ def check(rep):
         seq_chanclose(rep, rng, lines, expect)
     for _ in range(60 if not thorough else 400):
         seq_stop(rep, rng, lines, expect)
+    for _ in range(12 if not thorough else 60):
+        seq_close_during_closeok(rep, rng)
     jobs = []
     import json
     for path in sorted((common.CORPUS / 'C11').glob('*.json')):   # minimised past findings run first
